@@ -46,6 +46,18 @@ CHECKS = {
  "C15": ("fault_enumeration", "4/C15", "runtime monitoring: access-control matrix enumerated against real chains, effect decided by KV diff",
          "{create, upgrade, register-relayer, set-rules} x 6 ways of presenting an authority (gov execution, router with user/empty authority, user-signed naming itself / forging gov / relayer) x payloads (new/existing name, same/other client type, garbage Any) and update-client x {relayer of this chain, of another chain, arbitrary, replaced} in registries of 0-3 clients; refused requests must leave an empty diff, authorised ones must take the stated effect, create never overwrites, upgrade never changes type.",
          "Legacy v1beta1 proposal handlers are only reachable through gov and are not driven separately."),
+ "C07": ("exploration", "4/C07", "runtime monitoring: differential oracle (reference light-client rule on the generator's knowledge vs the real 07-tendermint client in a real store)",
+         "Synthetic chains really signed by chosen validator subsets (incl. subsets exactly on the 1/3 and 2/3 thresholds, skewed powers, set changes) against clients with several stored states; target/trusted heights, supplied trusted sets, header and block times at / 1ns around every boundary, other chain id / revision, swapped validator sets; verdict, stored consensus state, latest height and store-unchanged-on-rejection are compared.",
+         "Trust levels from {1/3, 2/5, 1/2, 2/3}; non-signers are absent votes (invalid signatures are not generated); pruning of expired states is not judged."),
+ "C08": ("exploration", "4/C08", "runtime monitoring: ground-truth oracle over generated key/value stores (real IAVL store of a SimApp; Merkle-Patricia tries built with go-ethereum) for the three client types",
+         "False claims (absent key, other value, value of another height or key, foreign / truncated / shuffled / swapped proofs, other contract address, altered account fields, height above latest, no consensus state, delay not elapsed) must be rejected; true claims with their genuine proof and all side conditions met (incl. delay exactly elapsed) must be accepted; true claim + damaged proof is not judged; no call may panic.",
+         "ETH/BSC delay is judged in blocks only (TimeDelay 0); the MPT world builder and go-ethereum's trie are the trusted base for BSC/ETH ground truth."),
+ "C17": ("fault_enumeration", "4/C17", "runtime monitoring: differential oracle (reference Parlia-light model validated on 300 recorded mainnet headers vs the real 08-bsc client), all single-field corruptions enumerated at every position",
+         "Synthetic chains sealed with generated keys (sets of 1-21, epochs 8-64, a set change every epoch, in-/out-of-turn signers); at every block 27 single-field corruptions (re-sealed; incl. values at and just inside the gas bound, wrong chain id, damaged seal) are offered on a branch and must match the reference, then the valid header is applied and Header / Validators / consensus state compared.",
+         "Header time is not part of the statement and not judged; where the strict reading of the recency clause and Parlia's bounded window disagree (right after the set grows) the header is not judged."),
+ "C18": ("exploration", "4/C18", "runtime monitoring: differential oracle (reference header rule using go-ethereum's difficulty and EIP-1559 code + block-tree model) vs the real 09-eth client; real ethash on recorded headers, hook-skipped ethash on synthetic trees",
+         "Recorded mainnet children and seal/field corruptions with the real seal check; synthetic trees with forks up to 6+ levels below the tip in random submission order, duplicates and 18 single-field perturbations; after every accepted header all consensus states up to the latest header must lie on the parent-linked branch ending there.",
+         "Hook H2 skips only the ethash computation for synthetic headers; trusting period large enough that pruning does not interfere."),
 }
 PENDING = {
 }
